@@ -1,7 +1,7 @@
 CONSTANTS
   SectorSize <- TrS
   TableSize = 16
-  FlagFix = FALSE
+  FlagFix <- TrFlagFix
   LibFileKey <- TrKey
 INIT Init
 NEXT Next
